@@ -15,65 +15,69 @@ Record Inv (d0 : Z) (s : st) (g : ghost) : Prop := mkInv {
            tb <= s_now s /\ exists t0, last_eff (s_tm s) = Some t0 /\ d0 < tb - t0;
   i_rcvd : forall tb tr, idle_begin (s_tm s) = Some tb -> g_last_rcvd g = Some tr -> tr <= tb;
   i_rcvd_le : forall tr, g_last_rcvd g = Some tr -> tr <= s_now s;
-  i_defer : defer (s_cfg s) = d0 }.
+  i_defer : defer (s_cfg s) = d0;
+  i_sent : sent_since (s_tm s) = g_sent g }.
 
 Lemma health_tail_tm : forall c t now, fst (health_tail c t now) = t.
 Proof. intros. unfold health_tail. destruct (idle_begin t); [destruct (timeout_after _ _ _)|]; reflexivity. Qed.
 
 Lemma inv_step : forall d0 s g e, Inv d0 s g -> Inv d0 (fst (ev_step s e)) (ghost_step (s_now s) g e).
 Proof.
-  intros d0 s g e [E EL ID RC RL DF]. destruct s as [now c t]. destruct t as [hb le ib].
-  cbn [s_now s_cfg s_tm last_eff idle_begin hb_times] in *.
-  destruct e as [dt | ct | ct | | r]; cbn [ev_step fst ghost_step s_now s_cfg s_tm].
+  intros d0 s g e [E EL ID RC RL DF SS]. destruct s as [now c t]. destruct t as [hb le ib ss].
+  destruct g as [ge gr gs].
+  cbn [s_now s_cfg s_tm last_eff idle_begin hb_times sent_since g_last_eff g_last_rcvd g_sent] in *.
+  subst gs.
+  destruct e as [dt | ct | ct | | r]; cbn [ev_step fst ghost_step s_now s_cfg s_tm g_sent g_last_eff g_last_rcvd].
   - (* advance *)
-    constructor; cbn [s_now s_cfg s_tm last_eff idle_begin]; auto.
+    constructor; cbn [s_now s_cfg s_tm last_eff idle_begin sent_since g_sent]; auto.
     + intros t0 H. specialize (EL t0 H). lia.
     + intros tb H. destruct (ID tb H) as [A B]. split; [lia|exact B].
     + intros tr H. specialize (RL tr H). lia.
   - (* sent *)
-    unfold on_sent. destruct (effective ct); cbn [last_eff idle_begin hb_times g_last_eff g_last_rcvd].
-    + constructor; cbn [s_now s_cfg s_tm last_eff idle_begin g_last_eff g_last_rcvd]; auto.
+    unfold on_sent. cbn [sent_since]. destruct (effective ct && negb ss);
+      cbn [last_eff idle_begin hb_times g_last_eff g_last_rcvd].
+    + constructor; cbn [s_now s_cfg s_tm last_eff idle_begin sent_since g_last_eff g_last_rcvd g_sent]; auto.
       * intros t0 H. inversion H. lia.
       * intros tb H. discriminate.
       * intros tb tr H. discriminate.
-    + constructor; cbn [s_now s_cfg s_tm last_eff idle_begin]; auto.
+    + constructor; cbn [s_now s_cfg s_tm last_eff idle_begin sent_since g_sent]; auto.
   - (* received *)
-    unfold on_rcvd. destruct (effective ct); cbn [last_eff idle_begin hb_times g_last_eff g_last_rcvd].
-    + constructor; cbn [s_now s_cfg s_tm last_eff idle_begin g_last_eff g_last_rcvd]; auto.
+    unfold on_rcvd. destruct (effective ct); cbn [last_eff idle_begin hb_times sent_since g_last_eff g_last_rcvd].
+    + constructor; cbn [s_now s_cfg s_tm last_eff idle_begin sent_since g_last_eff g_last_rcvd g_sent]; auto.
       * intros t0 H. inversion H. lia.
       * intros tb H. discriminate.
       * intros tb tr H. discriminate.
       * intros tr H. inversion H. lia.
-    + destruct ib as [tb0|]; cbn [last_eff idle_begin hb_times].
-      * constructor; cbn [s_now s_cfg s_tm last_eff idle_begin g_last_eff g_last_rcvd]; auto.
+    + destruct ib as [tb0|]; cbn [last_eff idle_begin hb_times sent_since].
+      * constructor; cbn [s_now s_cfg s_tm last_eff idle_begin sent_since g_last_eff g_last_rcvd g_sent]; auto.
         -- intros tb H. inversion H; subst tb. destruct (ID tb0 eq_refl) as [A (t0 & B & C)].
            split; [lia|]. exists t0. split; auto. lia.
         -- intros tb tr H1 H2. inversion H1; inversion H2. lia.
         -- intros tr H. inversion H. lia.
-      * constructor; cbn [s_now s_cfg s_tm last_eff idle_begin g_last_eff g_last_rcvd]; auto.
+      * constructor; cbn [s_now s_cfg s_tm last_eff idle_begin sent_since g_last_eff g_last_rcvd g_sent]; auto.
         -- intros tb tr H. discriminate.
         -- intros tr H. inversion H. lia.
   - (* health *)
-    unfold health. cbn [last_eff idle_begin hb_times].
+    unfold health. cbn [last_eff idle_begin hb_times sent_since].
     destruct le as [t0|].
     + destruct (Z.ltb_spec (defer c) (now - t0)) as [D|D].
       * destruct ib as [tb|].
-        -- pose proof (health_tail_tm c (mktm hb (Some t0) (Some tb)) now) as HT.
-           destruct (health_tail c (mktm hb (Some t0) (Some tb)) now) as [t' o]. cbn [fst] in HT. subst t'.
-           cbn [fst]. constructor; cbn [s_now s_cfg s_tm last_eff idle_begin]; auto.
-        -- cbn [fst]. constructor; cbn [s_now s_cfg s_tm last_eff idle_begin]; auto.
+        -- pose proof (health_tail_tm c (mktm hb (Some t0) (Some tb) ss) now) as HT.
+           destruct (health_tail c (mktm hb (Some t0) (Some tb) ss) now) as [t' o]. cbn [fst] in HT. subst t'.
+           cbn [fst]. constructor; cbn [s_now s_cfg s_tm last_eff idle_begin sent_since g_sent]; auto.
+        -- cbn [fst]. constructor; cbn [s_now s_cfg s_tm last_eff idle_begin sent_since g_sent]; auto.
            ++ intros tb H. inversion H; subst tb. split; [lia|]. exists t0. split; auto. lia.
            ++ intros tb tr H1 H2. inversion H1; subst tb. apply RL. exact H2.
       * destruct (hb_interval c * (hb + 1) <? now - t0).
-        -- cbn [fst]. constructor; cbn [s_now s_cfg s_tm last_eff idle_begin]; auto.
-        -- pose proof (health_tail_tm c (mktm hb (Some t0) ib) now) as HT.
-           destruct (health_tail c (mktm hb (Some t0) ib) now) as [t' o]. cbn [fst] in HT. subst t'.
-           cbn [fst]. constructor; cbn [s_now s_cfg s_tm last_eff idle_begin]; auto.
-    + pose proof (health_tail_tm c (mktm hb None ib) now) as HT.
-      destruct (health_tail c (mktm hb None ib) now) as [t' o]. cbn [fst] in HT. subst t'.
-      cbn [fst]. constructor; cbn [s_now s_cfg s_tm last_eff idle_begin]; auto.
+        -- cbn [fst]. constructor; cbn [s_now s_cfg s_tm last_eff idle_begin sent_since g_sent]; auto.
+        -- pose proof (health_tail_tm c (mktm hb (Some t0) ib ss) now) as HT.
+           destruct (health_tail c (mktm hb (Some t0) ib ss) now) as [t' o]. cbn [fst] in HT. subst t'.
+           cbn [fst]. constructor; cbn [s_now s_cfg s_tm last_eff idle_begin sent_since g_sent]; auto.
+    + pose proof (health_tail_tm c (mktm hb None ib ss) now) as HT.
+      destruct (health_tail c (mktm hb None ib ss) now) as [t' o]. cbn [fst] in HT. subst t'.
+      cbn [fst]. constructor; cbn [s_now s_cfg s_tm last_eff idle_begin sent_since g_sent]; auto.
   - (* negotiate *)
-    constructor; cbn [s_now s_cfg s_tm last_eff idle_begin negotiate defer]; auto.
+    constructor; cbn [s_now s_cfg s_tm last_eff idle_begin sent_since negotiate defer g_sent]; auto.
 Qed.
 
 Lemma inv_run : forall d0 evs s g, Inv d0 s g -> Inv d0 (ev_exec s evs) (ghost_run s g evs).
@@ -82,7 +86,7 @@ Proof.
   rewrite ev_exec_cons. cbn [ghost_run]. apply IH. apply inv_step. exact H.
 Qed.
 
-Lemma inv_init : forall m d, Inv d (st_init m d) (mkgh None None).
+Lemma inv_init : forall m d, Inv d (st_init m d) ghost_init.
 Proof.
   intros. constructor; cbn; auto; intros; discriminate.
 Qed.
@@ -108,14 +112,14 @@ Qed.
    received during the last max_idle *)
 Lemma p_c17_idle_not_before : forall m d evs,
   let s := ev_exec (st_init m d) evs in
-  let g := ghost_run (st_init m d) (mkgh None None) evs in
+  let g := ghost_run (st_init m d) ghost_init evs in
   snd (health (s_cfg s) (s_tm s) (s_now s)) = HTimeout ->
   max_idle (s_cfg s) <> 0 /\
   (exists t0, g_last_eff g = Some t0 /\ d + max_idle (s_cfg s) < s_now s - t0) /\
   (forall tr, g_last_rcvd g = Some tr -> max_idle (s_cfg s) < s_now s - tr).
 Proof.
   intros m d evs s g H.
-  pose proof (inv_run d evs _ _ (inv_init m d)) as [E EL ID RC RL DF]. fold s g in E, EL, ID, RC, RL, DF.
+  pose proof (inv_run d evs _ _ (inv_init m d)) as [E EL ID RC RL DF SS]. fold s g in E, EL, ID, RC, RL, DF.
   apply health_timeout_inv in H. destruct H as (tb & IB & M0 & ML).
   destruct (ID tb IB) as [A (t0 & B & C)].
   split; [exact M0|]. split.
@@ -132,68 +136,83 @@ Qed.
 
 Lemma health_keeps_idle : forall c t now tb,
   idle_begin t = Some tb ->
-  idle_begin (fst (health c t now)) = Some tb /\ last_eff (fst (health c t now)) = last_eff t.
+  idle_begin (fst (health c t now)) = Some tb /\ last_eff (fst (health c t now)) = last_eff t /\
+  sent_since (fst (health c t now)) = sent_since t.
 Proof.
   intros c t now tb IB. unfold health. destruct (last_eff t) as [t0|] eqn:LE.
   - destruct (defer c <? now - t0).
     + rewrite IB. rewrite health_tail_tm. auto.
-    + destruct (hb_interval c * (hb_times t + 1) <? now - t0); cbn [fst idle_begin last_eff]; auto.
+    + destruct (hb_interval c * (hb_times t + 1) <? now - t0); cbn [fst idle_begin last_eff sent_since]; auto.
       rewrite health_tail_tm. auto.
   - rewrite health_tail_tm. auto.
 Qed.
 
 Lemma quiet_run : forall q s t0 tb h1,
   forallb quiet_ev q = true ->
+  (sent_since (s_tm s) = true \/ forallb not_eff_send q = true) ->
   last_eff (s_tm s) = Some t0 -> idle_begin (s_tm s) = Some tb -> tb <= h1 -> h1 <= s_now s ->
   let s2 := ev_exec s q in
   last_eff (s_tm s2) = Some t0 /\ idle_begin (s_tm s2) = Some tb /\ s_cfg s2 = s_cfg s /\ h1 <= s_now s2.
 Proof.
-  induction q as [|e r IH]; intros s t0 tb h1 Hq LE IB Htb Hn; cbn zeta.
+  induction q as [|e r IH]; intros s t0 tb h1 Hq Hs LE IB Htb Hn; cbn zeta.
   - cbn. auto.
   - rewrite ev_exec_cons. cbn [forallb] in Hq. apply andb_true_iff in Hq. destruct Hq as [Qe Qr].
     assert (X : last_eff (s_tm (fst (ev_step s e))) = Some t0 /\
                 idle_begin (s_tm (fst (ev_step s e))) = Some tb /\
-                s_cfg (fst (ev_step s e)) = s_cfg s).
-    { destruct e as [dt | ct | ct | | rr]; cbn [quiet_ev] in Qe; try discriminate; cbn [ev_step fst s_tm s_cfg].
-      - auto.
-      - unfold on_sent. destruct (effective ct); [discriminate|auto].
-      - pose proof (health_keeps_idle (s_cfg s) (s_tm s) (s_now s) tb IB) as [A B].
+                s_cfg (fst (ev_step s e)) = s_cfg s /\
+                (sent_since (s_tm (fst (ev_step s e))) = true \/ forallb not_eff_send r = true)).
+    { assert (Hr : sent_since (s_tm s) = true \/ forallb not_eff_send r = true).
+      { destruct Hs as [Hs|Hs]; [left; exact Hs|right]. cbn [forallb] in Hs. apply andb_true_iff in Hs. apply Hs. }
+      assert (He : sent_since (s_tm s) = true \/ not_eff_send e = true).
+      { destruct Hs as [Hs|Hs]; [left; exact Hs|right]. cbn [forallb] in Hs. apply andb_true_iff in Hs. apply Hs. }
+      destruct e as [dt | ct | ct | | rr]; cbn [quiet_ev] in Qe; try discriminate; cbn [ev_step fst s_tm s_cfg].
+      - split; [exact LE|]. split; [exact IB|]. split; [reflexivity|exact Hr].
+      - assert (Z0 : effective ct && negb (sent_since (s_tm s)) = false).
+        { destruct He as [He|He]; [rewrite He; apply andb_false_r|].
+          cbn [not_eff_send] in He. apply negb_true_iff in He. rewrite He. reflexivity. }
+        unfold on_sent. rewrite Z0. split; [exact LE|]. split; [exact IB|]. split; [reflexivity|exact Hr].
+      - pose proof (health_keeps_idle (s_cfg s) (s_tm s) (s_now s) tb IB) as [A [B C]].
         destruct (health (s_cfg s) (s_tm s) (s_now s)) as [t' o]. cbn [fst s_tm s_cfg] in *.
-        rewrite B. auto. }
-    destruct X as (X1 & X2 & X3).
+        rewrite B, C. split; [exact LE|]. split; [exact A|]. split; [reflexivity|exact Hr]. }
+    destruct X as (X1 & X2 & X3 & X4).
     pose proof (now_mono_step s e) as M.
-    destruct (IH (fst (ev_step s e)) t0 tb h1 Qr X1 X2 Htb ltac:(lia)) as (A & B & C & D).
+    destruct (IH (fst (ev_step s e)) t0 tb h1 Qr X4 X1 X2 Htb ltac:(lia)) as (A & B & C & D).
     rewrite C, X3. auto.
 Qed.
 
-(* AFTER: once a health check has seen the last effective payload more than defer old, then — as
-   long as nothing but further health checks, clock advances and packets without effective payload
-   that WE send happen — every health check later than max_idle after that first one answers
-   TimeOut.  (Path::drive calls health every 10 ms.) *)
+(* AFTER: once a health check has seen the last restart of the idle period (a received effective
+   packet, or the first effective packet sent after a receive) more than defer old, then - as long
+   as nothing is received - every health check later than max_idle after that first one answers
+   TimeOut, WHATEVER we keep sending: once an effective packet has been sent since the last receive,
+   further effective packets (retransmissions into a dead network) do not postpone the timeout.
+   (Path::drive calls health every 10 ms.) *)
 Lemma p_c17_idle_after : forall m d pre q t0,
   let s := ev_exec (st_init m d) pre in
   last_eff (s_tm s) = Some t0 -> d < s_now s - t0 ->
   forallb quiet_ev q = true ->
+  (sent_since (s_tm s) = true \/ forallb not_eff_send q = true) ->
   let s1 := fst (ev_step s EHealth) in
   let s2 := ev_exec s1 q in
   max_idle (s_cfg s2) <> 0 -> 0 <= max_idle (s_cfg s2) -> max_idle (s_cfg s2) < s_now s2 - s_now s ->
   snd (health (s_cfg s2) (s_tm s2) (s_now s2)) = HTimeout.
 Proof.
-  intros m d pre q t0 s LE Hd Hq s1 s2 M0 Mp ML.
-  pose proof (inv_run d pre _ _ (inv_init m d)) as [E EL ID RC RL DF].
+  intros m d pre q t0 s LE Hd Hq Hs s1 s2 M0 Mp ML.
+  pose proof (inv_run d pre _ _ (inv_init m d)) as [E EL ID RC RL DF SS].
   fold s in E, EL, ID, RC, RL, DF.
-  (* after the first health check the idle period has begun, not later than now *)
   assert (S1 : exists tb, idle_begin (s_tm s1) = Some tb /\ tb <= s_now s /\
-                          last_eff (s_tm s1) = Some t0 /\ s_cfg s1 = s_cfg s /\ s_now s1 = s_now s).
+                          last_eff (s_tm s1) = Some t0 /\ s_cfg s1 = s_cfg s /\ s_now s1 = s_now s /\
+                          sent_since (s_tm s1) = sent_since (s_tm s)).
   { subst s1. cbn [ev_step]. unfold health. rewrite LE. rewrite DF.
     destruct (Z.ltb_spec d (s_now s - t0)); [|lia].
     destruct (idle_begin (s_tm s)) as [tb|] eqn:IB.
     - pose proof (health_tail_tm (s_cfg s) (s_tm s) (s_now s)) as HT.
       destruct (health_tail (s_cfg s) (s_tm s) (s_now s)) as [t' o]. cbn [fst] in *. subst t'.
-      exists tb. cbn [s_tm s_cfg s_now]. destruct (ID tb ltac:(first [exact IB | reflexivity])) as [A _]. auto.
-    - cbn [fst s_tm s_cfg s_now idle_begin last_eff]. exists (s_now s). repeat split; auto. lia. }
-  destruct S1 as (tb & IB1 & Htb & LE1 & C1 & N1).
-  destruct (quiet_run q s1 t0 tb (s_now s) Hq LE1 IB1 Htb ltac:(lia)) as (A & B & C & D).
+      exists tb. cbn [s_tm s_cfg s_now]. destruct (ID tb ltac:(first [exact IB | reflexivity])) as [A _]. auto 7.
+    - cbn [fst s_tm s_cfg s_now idle_begin last_eff sent_since]. exists (s_now s). repeat split; auto. lia. }
+  destruct S1 as (tb & IB1 & Htb & LE1 & C1 & N1 & F1).
+  assert (Hs1 : sent_since (s_tm s1) = true \/ forallb not_eff_send q = true)
+    by (destruct Hs as [Hs|Hs]; [left; congruence|right; exact Hs]).
+  destruct (quiet_run q s1 t0 tb (s_now s) Hq Hs1 LE1 IB1 Htb ltac:(lia)) as (A & B & C & D).
   fold s2 in A, B, C, D.
   unfold health. rewrite A. rewrite C, C1 in *. rewrite DF.
   destruct (Z.ltb_spec d (s_now s2 - t0)); [|lia].
@@ -201,6 +220,23 @@ Proof.
   destruct (Z.eqb_spec (max_idle (s_cfg s)) 0); [contradiction|]. cbn [negb andb].
   destruct (Z.ltb_spec (max_idle (s_cfg s)) (s_now s2 - tb)); [reflexivity|lia].
 Qed.
+
+(* F65 regression: effective packets sent every 5 ms into a dead network (nothing is ever received),
+   max_idle 20 ms, defer 0.  Under the rule before the repair every send restarts the idle period and
+   the health check 40 ms later still does not time out; under the repaired rule it does. *)
+Definition f65_history : list ev :=
+  [ESent EffectivePayload; EAdv 1000; EHealth;
+   EAdv 5000; ESent EffectivePayload; EHealth; EAdv 5000; ESent EffectivePayload; EHealth;
+   EAdv 5000; ESent EffectivePayload; EHealth; EAdv 5000; ESent EffectivePayload; EHealth;
+   EAdv 5000; ESent EffectivePayload; EHealth; EAdv 5000; ESent EffectivePayload; EHealth;
+   EAdv 5000; ESent EffectivePayload; EHealth; EAdv 5000; ESent EffectivePayload; EAdv 1000].
+Lemma p_c17_idle_retransmit_regression :
+  let old := ev_exec_f65 (st_init 20000 0) f65_history in
+  let new := ev_exec (st_init 20000 0) f65_history in
+  s_now old = 42000 /\
+  snd (health (s_cfg old) (s_tm old) (s_now old)) <> HTimeout /\
+  snd (health (s_cfg new) (s_tm new) (s_now new)) = HTimeout.
+Proof. vm_compute. repeat split; try reflexivity. discriminate. Qed.
 
 (* negotiate: the smaller non-zero value, the only non-zero value, or disabled *)
 Lemma p_c17_negotiate : forall c r, 0 <= max_idle c -> 0 <= r ->
